@@ -48,6 +48,13 @@ def make_work(rng, tier):
 
 
 def run(ctx):
+    from . import c07fn, common
+    res = run_sql(ctx)
+    # every builtin aggregate's update/merge/finalize state machine (model/AggFn.v, props/C07fn.v)
+    return common.merge_results(res, c07fn.run(ctx), "aggregate_function_states")
+
+
+def run_sql(ctx):
     return sqlprop.run_property(
         ctx, PID, "props/C07.v", make_work,
         "partial-state algebra of count/sum/min/max/bool_and/bool_or: combining per-partition states in any split and order gives the aggregate of the whole group (sum: that value or an overflow error, never another value); empty input values; one row per group, NULLs one group, every row in exactly one group; DISTINCT/UNION as duplicate elimination; DISTINCT aggregates; the open-addressing group table and the two-level partitioned scheme",
